@@ -94,6 +94,7 @@ var h03Templates = []string{
 	"?inf", "infinit?", "?nfinity", "+infini??", "na?", "?an", "-na?", "in?", "+i?f",
 	"0x1.?p?", "0x?p-?", "0X?.?P+?", "0x1?p?", "0x_?p1", "1_?", "?_?", "1__?", "_?", "?_",
 	"?.?e?", "?e?", ".?e-?", "?.e+?", "1e?9", "1e-?9", "1e3?9", "?e-32?", "1.7976931348623157e30?", "1.797693134862315?e308", "4.9e-32?", "2.470328229206232?e-324",
+	"1234567890??e30", "98765432109?e25", "5555555555??e37", "1234567890?2e23", "7.77777777??e29",
 	"9007199254740993.?", "900719925474099?", "4503599627370496.?", "1.00000000000000011102230246251565404236316680908203125?", "0.?000000000000000000000001",
 }
 
@@ -202,6 +203,41 @@ func H03IntFast() {
 	vndReach("h03:int-fast-path")
 	vndAssert(vndAnd(hi == 0, lo <= math.MaxInt64), "intfast-accumulation-never-wraps")
 	vndAssert(v == float64(acc), "intfast-value-is-conversion-of-the-accumulated-integer")
+}
+
+var h03IterTemplates = []string{
+	"922337203685477580?", "+922337203685477580?", "-922337203685477580?", "0922337203685477580?",
+	"1844674407370955161?", "92233720368547758?7", "-92233720368547758?8", "9_223372036854775807?",
+}
+
+// H03ItersTemplate: iteration counts around the int64 boundary, digit holes
+// case-split.
+func H03ItersTemplate() {
+	t := []byte(h03IterTemplates[vndParam("tmpl")])
+	for k := range t {
+		if t[k] == '?' {
+			c := vndByte("hole")
+			vndAssume(vndAnd(c >= '0', c <= '9'))
+			t[k] = vndConcretizeByte(c)
+		}
+	}
+	line := append([]byte("BenchmarkX "), t...)
+	line = append(line, " 5 u\n"...)
+	r := NewReader(bytes.NewReader(line), "f")
+	if !r.Scan() {
+		vndAssert(false, "iters-one-record")
+		return
+	}
+	want, werr := strconv.Atoi(string(t))
+	switch rec := r.Result().(type) {
+	case *Result:
+		vndReach("h03:iters-boundary-accepted")
+		vndAssert(werr == nil, "iters-rejected-text-is-a-syntax-error")
+		vndAssert(rec.Iters == want, "iters-equal-the-integer-written")
+	case *SyntaxError:
+		vndReach("h03:iters-boundary-rejected")
+		vndAssert(werr != nil, "iters-accepted-text-yields-a-result")
+	}
 }
 
 // H03Iters: the iteration count equals the exact integer written, against
